@@ -115,6 +115,14 @@ class AuditRun:
                 for cid, con in contests.items():
                     con.cards = self.cards_after_setup[cid]
                     con.cvrs = self.cvrs_after_setup[cid]
+            early = bool(first and self.case.get("early_margins") and not self.case.get("margins_via_tally"))
+            if early:
+                # the worked notebook's order: assertions first, and a look at the reported margins *before* the
+                # ONEAudit pooling step changes the CVRs in place; margins are set again afterwards
+                self.call("make_assertions", W.make_assertions, ns, world, contests)
+                self.call("set_all_margins_from_cvrs(early)", ns.Assertion.set_all_margins_from_cvrs, audit=self.audit,
+                          contests=contests, cvr_list=self.cvr_list)
+                self.out.probe("margins looked at before pooling")
             if world["audit_type"] == W.ONEAUDIT:
                 if first:
                     self.pools = self.call("pool_contests", ns.CVR.pool_contests, self.cvr_list)
@@ -125,7 +133,12 @@ class AuditRun:
             if first:
                 self.cards_after_setup = {cid: con.cards for cid, con in contests.items()}
                 self.cvrs_after_setup = {cid: con.cvrs for cid, con in contests.items()}
-        self.call("make_assertions", W.make_assertions, ns, world, contests)
+        if not self.polling and first and self.case.get("early_margins") and not self.case.get("margins_via_tally"):
+            for con in contests.values():  # user-side glue: the tests were built before the bounds grew
+                for asn in con.assertions.values():
+                    asn.test.N = int(con.cards)
+        else:
+            self.call("make_assertions", W.make_assertions, ns, world, contests)
         self.call("check_audit_parameters", self.audit.check_audit_parameters, contests)
         if not self.polling:
             if world["audit_type"] == W.ONEAUDIT:
@@ -181,6 +194,13 @@ class AuditRun:
             else:
                 pt = phantom_ticket_stream(case)
                 nums = [case["tickets"][c.id] if c.id in case["tickets"] else next(pt) for c in self.cvr_list]
+                if case["numbering"]["mode"] == "rank":
+                    # small consecutive sample numbers 0..n-1 (as the library's own test assigns them)
+                    order = sorted(range(len(nums)), key=lambda i: nums[i])
+                    rk = [0] * len(nums)
+                    for pos, i in enumerate(order):
+                        rk[i] = pos
+                    nums = rk
                 self.call("assign_sample_nums", ns.CVR.assign_sample_nums, self.cvr_list, SchedPrng(nums))
             nums = [c.sample_num for c in self.cvr_list]
             if len(set(nums)) != len(nums):
@@ -198,7 +218,8 @@ class AuditRun:
         for cid in self.contests:
             a = self.avail[cid]
             n = int(math.ceil(rnd["frac"][cid] * a))
-            lo = min(a, 2)  # samples of length 1 make shrink_trunc raise (outside the claimed properties)
+            # samples of length 1 make shrink_trunc raise (outside the claimed properties)
+            lo = min(a, 2) if self.world["contests"][cid].get("estim") == "shrink_trunc" else min(a, 1)
             s[cid] = max(lo, min(a, n))
         return s
 
@@ -217,6 +238,20 @@ class AuditRun:
             self.rebuilt.append(r)
             self.notify("after_rebuild", r)
         sizes = self.sizes_for(rnd)
+        if (rnd.get("size_from_estimate") and r > 0 and not self.polling and self.use_style and self.data_hist
+                and not rnd.get("rebuild")):
+            # escalate the way the worked notebooks do: ask the library how many cards it now wants
+            # (uses the shared state cvr.sampled / assertion.proved), never shrinking a sample
+            res = self.call("Audit.find_sample_size", self.audit.find_sample_size, self.contests, cvrs=self.cvr_list,
+                            mvr_sample=self.mvr_sample, cvr_sample=self.cvr_sample, fatal=False)
+            if res is not None:
+                out.probe("round size taken from the library's own estimate")
+                for cid, con in self.contests.items():
+                    est = int(con.sample_size) if con.sample_size is not None else 0
+                    sizes[cid] = max(self.last_sizes.get(cid, 0), min(self.avail[cid], max(est, min(self.avail[cid], 2))))
+        for cid in sizes:
+            sizes[cid] = max(sizes[cid], getattr(self, "last_sizes", {}).get(cid, 0))
+        self.last_sizes = dict(sizes)
         out.ev("round", [r, rnd["variant"], sizes])
         out.shape(f"r{r}:{rnd['variant']}{':rebuild' if rnd.get('rebuild') else ''}")
         out.units["rounds"] += 1
